@@ -558,7 +558,8 @@ def align_variable_names_with_convention(
     substitute_node_renamings = collections.defaultdict(set)
     for node, substitute in renamings.items():
         name = node.id if isinstance(node, ast.Name) else node.name
-        if name_substitutes[name] <= {substitute}:
+        # A name that is also a builtin may mean the builtin where it is read before it is defined.
+        if name_substitutes[name] <= {substitute} and name not in constants.BUILTIN_FUNCTIONS:
             substitute_node_renamings[substitute].add(node)
 
     transaction = 0
